@@ -388,6 +388,7 @@ func (g *genState) streamCase(e *entry, b []byte, mut string) {
 	}
 	c.Acc, c.Re = true, hex.EncodeToString(re)
 	g.hashOracle(e, o.obj, b[:len(b)-unread], re, "")
+	g.capOracle(e, o.obj, b, "")
 	read := b[:len(b)-unread]
 	if bytes.Equal(re, read) {
 		g.res.Count("stream_accept_canonical")
@@ -729,6 +730,7 @@ func (g *genState) bytesCaseVia(e *entry, v *viaFn, b []byte, mut string) {
 	}
 	c.Acc, c.Re, c.Value = true, hex.EncodeToString(re), &mv
 	g.ownershipOracle(e, v, b)
+	g.capOracle(e, o.obj, b, c.Via)
 	// one hash per value: also for the accepted-but-not-canonical inputs
 	if pre, digest := g.hashOracle(e, o.obj, b, re, c.Via); digest && v == nil {
 		g.nhash++
